@@ -5,6 +5,8 @@ from __future__ import annotations
 
 import re
 
+from lxml import etree
+
 import common
 
 from docsweep import iter_pars, shape_of
@@ -421,7 +423,20 @@ def o_html_tags_exact(ctx):
                     simple = False
                     break
                 rk = [x for x in k if isinstance(x.tag, str)]
-                if any(x.tag not in (q("rPr"), q("t")) for x in rk):
+
+                def pure_textbox(x):
+                    # a text box anchored in the run: its paragraphs are records of their own and add nothing to
+                    # this paragraph's string; the run's own text keeps the run's own formatting - the formatting
+                    # INSIDE the box must not leak out (round-8 seed C07-gather-iter-descendants)
+                    if x.tag not in (q("pict"), q("drawing")):
+                        return False
+                    names = {etree.QName(y).localname for y in x.iter() if isinstance(y.tag, str)}
+                    if "txbxContent" not in names or names & {"blip", "imagedata", "hyperlink", "footnoteReference",
+                                                              "endnoteReference", "commentReference", "tbl"}:
+                        return False
+                    return not any(isinstance(y.tag, str) and etree.QName(y).localname == "docPr" and (y.get("descr") or y.get("title"))
+                                   for y in x.iter())
+                if any(x.tag not in (q("rPr"), q("t")) and not pure_textbox(x) for x in rk):
                     simple = False
                     break
                 tags = frozenset(expected_run_tags(k.find(q("rPr")), w) | heading)
